@@ -1810,13 +1810,19 @@ impl<'a, E: quiver_core::effects::Effect> Compiler<'a, E> {
             // pattern (`=Cons[_, tail]`) is destructuring too: it is a part of the value, and
             // with the value's provenance it would be narrowed along with the scrutinee (to
             // `Cons[..]`, losing `Nil`).
-            let var_provenance = if bindings.len() == 1 && pattern::binds_whole_value(&binding_sets)
-            {
-                value_provenance.clone()
-            } else {
-                Provenance::Unknown
-            };
+            let mut var_provenance =
+                if bindings.len() == 1 && pattern::binds_whole_value(&binding_sets) {
+                    value_provenance.clone()
+                } else {
+                    Provenance::Unknown
+                };
+            // The value was computed before this binder took effect, so a mention of the same
+            // name in its provenance (`m = m`) means the *previous* binding.
+            var_provenance.forget_variable(variable_name);
 
+            // A rebinding starts afresh: nothing known about the previous binding of this name
+            // (its narrowed type, values derived from it) applies to the new one.
+            scopes::forget_variable(&mut self.scopes, variable_name);
             if let Some(scope) = self.scopes.last_mut() {
                 scope.bindings.insert(
                     variable_name.clone(),
